@@ -377,9 +377,16 @@ func Write(fd int, p []byte) (int, error) {
 	return n, err
 }
 
+// RecSys, if set, is called for write-type syscalls on REAL descriptors (record mode).
+var RecSys func(name string, fd int, n int, err error)
+
 func writeImpl(fd int, p []byte) (int, error) {
 	if !isSim(fd) {
-		return syscall.Write(fd, p)
+		n, err := syscall.Write(fd, p)
+		if RecSys != nil {
+			RecSys("write", fd, n, err)
+		}
+		return n, err
 	}
 	yield("write", fd, nil)
 	K.mu.Lock()
@@ -653,7 +660,15 @@ func syscallImpl(trap, a1, a2, a3 uintptr) (uintptr, uintptr, syscall.Errno) {
 			return uintptr(n), 0, 0
 		}
 	}
-	return syscall.Syscall(trap, a1, a2, a3)
+	r1, r2, e := syscall.Syscall(trap, a1, a2, a3)
+	if trap == syscall.SYS_WRITEV && RecSys != nil {
+		if e != 0 {
+			RecSys("writev", int(a1), -1, e)
+		} else {
+			RecSys("writev", int(a1), int(r1), nil)
+		}
+	}
+	return r1, r2, e
 }
 
 // Sendfile is syscall.Sendfile (destination may be simulated, the source is a real file).
@@ -667,7 +682,11 @@ func Sendfile(outfd int, infd int, offset *int64, count int) (int, error) {
 
 func sendfileImpl(outfd int, infd int, offset *int64, count int) (int, error) {
 	if !isSim(outfd) {
-		return syscall.Sendfile(outfd, infd, offset, count)
+		n, err := syscall.Sendfile(outfd, infd, offset, count)
+		if RecSys != nil {
+			RecSys("sendfile", outfd, n, err)
+		}
+		return n, err
 	}
 	yield("sendfile", outfd, nil)
 	K.mu.Lock()
